@@ -63,6 +63,9 @@ int lbuf_search(struct lbuf *lb, char *kw, int dir, int *r, int *o, int *len)
 		int off = dir > 0 && r0 == i ? uc_chr(s, o0 + 1) - s : 0;
 		while (rstr_find(re, s + off, 1, offs,
 				off ? RE_NOTBOL : 0) >= 0) {
+			int beg = off + offs[0];
+			if (beg > 0 && !s[beg] && s[beg - 1] == '\n')
+				break;		/* not a position of this line */
 			if (dir < 0 && r0 == i &&
 					uc_off(s, off + offs[0]) >= o0)
 				break;
